@@ -292,6 +292,13 @@ def run_ext(W, cfg):
         pr, pc = W.int('pr', 1, BIG), W.int('pc', 1, BIG)
         e2 = X.array_extent((anr, anc), k, parent_shape=(pr, pc))
         W.ob('extent in parent', list(e2), [e[0] + pr // 2, e[1] + pr // 2, e[2] + pc // 2, e[3] + pc // 2])
+        # the parent shape handed over as an array the caller keeps: asked twice, same answer, array unchanged
+        ps = W.array([pr, pc])
+        e3 = X.array_extent((anr, anc), k, parent_shape=ps)
+        e4 = X.array_extent((anr, anc), k, parent_shape=ps)
+        W.ob('extent in parent (shape as an array)', list(e3), list(e2))
+        W.ob('extent in parent (same array, second call)', list(e4), list(e2))
+        W.ob('the caller\'s parent shape array is untouched', [ps[0], ps[1]], [pr, pc])
     elif what in ('boundary', 'merge_offset'):
         class F:       # boundary() only reads .extent
             pass
